@@ -8,6 +8,8 @@ CONSTANTS Reads,                 \* the file reads (one goroutine each)
           Cap,                   \* capacity of the limiter channel (MaxConcurrentCats / MaxConcurrentTails)
           SessOf,                \* function Reads -> session id (a cancelled session cancels all its reads)
           Fails,                 \* subset of Reads whose file cannot be opened/decoded: the reader returns at once
+          Rotatable,             \* subset of Reads that follow a file (tail mode): the file may be rotated away, the read then
+                                 \* loops "sleep 2 s, try to open again" - keeping its slot, with no file open
           KF_CancelDrainsToken   \* named deviation: the deferred non-blocking receive also runs on the
                                  \* cancelled-while-waiting path and takes a token that belongs to another read
 
@@ -15,7 +17,7 @@ Sessions == {SessOf[r] : r \in Reads}
 VARIABLES tokens, pc, cancelled
 vars == <<tokens, pc, cancelled>>
 
-PCs == {"idle", "entering", "waiting", "acqd", "holding", "cancelled", "relbegin", "crel", "done"}
+PCs == {"idle", "entering", "waiting", "acqd", "holding", "retrying", "cancelled", "relbegin", "crel", "done"}
 TypeOK == tokens \in 0..(Cap + Cardinality(Reads)) /\ pc \in [Reads -> PCs] /\ cancelled \in [Sessions -> BOOLEAN]
 
 Init == tokens = 0 /\ pc = [r \in Reads |-> "idle"] /\ cancelled = [s \in Sessions |-> FALSE]
@@ -27,6 +29,9 @@ Enter(r)  == pc[r] = "idle" /\ Set(r, "entering") /\ UNCHANGED <<tokens, cancell
 Cancel(s) == ~cancelled[s] /\ cancelled' = [cancelled EXCEPT ![s] = TRUE] /\ UNCHANGED <<tokens, pc>>  \* handler.Shutdown() -> ctx cancelled
 Finish(r) == pc[r] = "holding" /\ ~cancelled[SessOf[r]] /\ r \notin Fails /\ Set(r, "relbegin") /\ UNCHANGED <<tokens, cancelled>>  \* reader.Start returned at EOF (the consumer drained the session)
 
+\* the followed file is removed / rotated away: the reader notices (truncation check at EOF), returns, and read() enters its retry loop
+Rotate(r) == pc[r] = "holding" /\ r \in Rotatable /\ ~cancelled[SessOf[r]] /\ Set(r, "retrying") /\ UNCHANGED <<tokens, cancelled>>
+
 \* ---- internal steps of read()
 FastAcq(r)     == pc[r] = "entering" /\ tokens < Cap /\ tokens' = tokens + 1 /\ Set(r, "acqd") /\ UNCHANGED cancelled
 CancelEnter(r) == pc[r] = "entering" /\ cancelled[SessOf[r]] /\ Set(r, "cancelled") /\ UNCHANGED <<tokens, cancelled>>
@@ -34,6 +39,7 @@ Wait(r)        == pc[r] = "entering" /\ tokens >= Cap /\ ~cancelled[SessOf[r]] /
 SlowAcq(r)     == pc[r] = "waiting" /\ tokens < Cap /\ tokens' = tokens + 1 /\ Set(r, "acqd") /\ UNCHANGED cancelled
 CancelWait(r)  == pc[r] = "waiting" /\ cancelled[SessOf[r]] /\ Set(r, "cancelled") /\ UNCHANGED <<tokens, cancelled>>
 AbortHolding(r) == pc[r] = "holding" /\ cancelled[SessOf[r]] /\ Set(r, "relbegin") /\ UNCHANGED <<tokens, cancelled>>  \* reader aborts on ctx.Done
+AbortRetry(r)  == pc[r] = "retrying" /\ cancelled[SessOf[r]] /\ Set(r, "relbegin") /\ UNCHANGED <<tokens, cancelled>>   \* ctx.Done seen in the retry loop
 FailFinish(r)  == pc[r] = "holding" /\ r \in Fails /\ Set(r, "relbegin") /\ UNCHANGED <<tokens, cancelled>>   \* reader.Start returned an error
 Acquired(r)    == pc[r] = "acqd" /\ Set(r, "holding") /\ UNCHANGED <<tokens, cancelled>>    \* file is opened from here on
 \* the cancelled paths return; with the deviation the deferred release runs for them too
@@ -41,19 +47,19 @@ CancelledExit(r) == pc[r] = "cancelled" /\ Set(r, IF KF_CancelDrainsToken THEN "
 \* deferred: select { case <-limiter: default: }
 Release(r)     == pc[r] \in {"relbegin", "crel"} /\ tokens' = (IF tokens > 0 THEN tokens - 1 ELSE 0) /\ Set(r, "done") /\ UNCHANGED cancelled
 
-Internal(r) == FastAcq(r) \/ CancelEnter(r) \/ Wait(r) \/ SlowAcq(r) \/ CancelWait(r) \/ Acquired(r) \/ AbortHolding(r) \/ FailFinish(r) \/ CancelledExit(r) \/ Release(r)
+Internal(r) == FastAcq(r) \/ CancelEnter(r) \/ Wait(r) \/ SlowAcq(r) \/ CancelWait(r) \/ Acquired(r) \/ AbortHolding(r) \/ AbortRetry(r) \/ FailFinish(r) \/ CancelledExit(r) \/ Release(r)
 InternalEnabled == \E r \in Reads : ENABLED Internal(r)
 
 Stutter == (\A r \in Reads : pc[r] = "done") /\ UNCHANGED vars
-Next == Stutter \/ (\E r \in Reads : Enter(r) \/ Finish(r) \/ Internal(r)) \/ (\E s \in Sessions : Cancel(s))
+Next == Stutter \/ (\E r \in Reads : Enter(r) \/ Finish(r) \/ Rotate(r) \/ Internal(r)) \/ (\E s \in Sessions : Cancel(s))
 
 Spec == Init /\ [][Next]_vars
           /\ \A r \in Reads : /\ WF_vars(Enter(r)) /\ WF_vars(Finish(r)) /\ WF_vars(FastAcq(r)) /\ WF_vars(Wait(r))
                               /\ WF_vars(SlowAcq(r)) /\ WF_vars(CancelWait(r)) /\ WF_vars(CancelEnter(r))
-                              /\ WF_vars(Acquired(r)) /\ WF_vars(AbortHolding(r)) /\ WF_vars(FailFinish(r)) /\ WF_vars(CancelledExit(r)) /\ WF_vars(Release(r))
+                              /\ WF_vars(Acquired(r)) /\ WF_vars(AbortHolding(r)) /\ WF_vars(AbortRetry(r)) /\ WF_vars(FailFinish(r)) /\ WF_vars(CancelledExit(r)) /\ WF_vars(Release(r))
 
 \* ---- Ref (C13), written from the statement
-Holders   == {r \in Reads : pc[r] \in {"acqd", "holding", "relbegin"}}    \* reads that own a slot
+Holders   == {r \in Reads : pc[r] \in {"acqd", "holding", "retrying", "relbegin"}}    \* reads that own a slot
 Reading   == {r \in Reads : pc[r] = "holding"}                            \* files actually open
 NeverOverLimit == Cardinality(Reading) <= Cap /\ Cardinality(Holders) <= Cap
 TokensMatch    == tokens = Cardinality(Holders)     \* a cancelled waiter neither keeps a slot nor releases another read's slot
